@@ -93,6 +93,7 @@ pub fn run(args: &[String]) {
     match args[0].as_str() {
         "cktab" => ck::tables(seed, &tier),
         "cksub" => ck::campaign(seed, &tier, args.get(3).map(|s| s.as_str())),
+        "ckmitm" => ck::mitm(seed, &tier),
         "tree" => tree::run(seed, &tier),
         "rt" => rt::run(seed, &tier, args.get(3).map(|s| s.as_str())),
         other => {
